@@ -195,7 +195,7 @@ class C20(Prop):
         for (n, rate) in ((1000, 2.0), (1, 1.5), (5, 1.0000001), (3, 10.0), (7, 0.0), (7, -0.5), (0, 0.01), (0, 0.5),
                           (10 ** 6, 1.00001), (1, 300.0), (2, 1e300)):
             if mine(1):
-                yield mk('c20.ctor', n, repr(rate), tag='ctor-outside')
+                yield mk('c20.ctor', n, repr(rate), tag='ctor-outside', ood=True)
 
         # (c) histories on constructed filters -----------------------------------------------------
         shapes = [(1, 0.02), (1, 0.01), (1, 0.3), (2, 0.01), (3, 0.01), (3, 0.000001), (5, 0.1), (10, 0.01),
@@ -235,7 +235,7 @@ class C20(Prop):
         # out-of-range tweak given to the constructor: hashing masks it, serialising refuses it
         if mine(1):
             init = self._fresh(3, 0.01, (1 << 32) + 5, 0)
-            yield mk('c20.hist', init, 'i:616263,d,c:616263,c:00,s', tag='hist-bigtweak')
+            yield mk('c20.hist', init, 'i:616263,d,c:616263,c:00,s', tag='hist-bigtweak', ood=True)
 
         # (e) state left behind (lesson 5) ----------------------------------------------------------------
         # MurmurHash3 called again: same data under other seeds, same seed on other data, the same call repeated,
@@ -299,7 +299,7 @@ class C20(Prop):
                 ops.append('%d.%s' % (i_f, t))
             for i_f in range(len(inits)):
                 ops += ['%d.%s' % (i_f, self._tok('has', e)) for e in pool] + ['%d.d' % i_f, '%d.s' % i_f]
-            yield mk('c20.multi', '|'.join(inits), ','.join(ops), tag='multi')
+            yield mk('c20.multi', '|'.join(inits), ','.join(ops), tag='multi', ood='x' in kinds)
 
         # (d) filters from the wire ------------------------------------------------------------------
         datas = [b'', b'', b'\x00', b'\xff', b'\xfe', b'\x01', b'\x00\x00', b'\xff\xff', bytes(3), bytes(8),
@@ -322,8 +322,11 @@ class C20(Prop):
                     ops = [self._tok('ins', es[0]), self._tok('has', es[0])] + ops
                 yield mk('c20.hist', 'w:' + w.hex(), ','.join(ops), tag='wire')
                 yield mk('c20.spec.hist', 'w:' + w.hex(), ','.join(ops), tag='wire-spec')
-        # "any hash-function count" on non-empty data: the full byte (0xff shortcut) answers at once whatever k
-        for k in (100001, 65536, 0x7fffffff, 0x80000000, 0xffffffff):
+        # "any hash-function count" on non-empty data.  Nothing here may depend on the running time of an internal
+        # shortcut (the single-0xff-byte early return): k is bounded by what a plain loop over all k hash functions
+        # finishes at once; counts up to 2^32-1 are exercised on EMPTY data only, where the statement itself
+        # ("matches every element") leaves nothing to compute
+        for k in (51, 255, 256, 257, 1000, 2000):
             for first in ('c:616263', 'i:616263', 'q:' + '11' * 32 + ':0'):
                 if mine(1):
                     w = wire(b'\xff', k, rng.choice(tweaks), 1)
@@ -343,20 +346,20 @@ class C20(Prop):
             cuts = range(len(w)) if len(w) < 40 else list(range(0, 12)) + list(range(len(w) - 12, len(w)))
             for cut in cuts:
                 if mine(1):
-                    yield mk('c20.hist', 'w:' + w[:cut].hex(), 'p,d', tag='wire-trunc')
+                    yield mk('c20.hist', 'w:' + w[:cut].hex(), 'p,d', tag='wire-trunc', ood=True)
             for extra in (b'\x00', b'\xff\xff', bytes(33)):
                 if mine(1):
-                    yield mk('c20.hist', 'w:' + (w + extra).hex(), 'p,d', tag='wire-extra')
+                    yield mk('c20.hist', 'w:' + (w + extra).hex(), 'p,d', tag='wire-extra', ood=True)
         for pre in (b'\xfd\x01\x00', b'\xfe\x01\x00\x00\x00', b'\xff\x01\x00\x00\x00\x00\x00\x00\x00', b'\xfd\x00\x00'):
             if mine(1):
                 n = int.from_bytes(pre[1:], 'little')
                 w = pre + bytes([0x55] * n) + struct.pack('<IIB', 3, 9, 1)
-                yield mk('c20.hist', 'w:' + w.hex(), 'p,d,c:55,i:55,d,c:55,s', tag='wire-noncanon')
+                yield mk('c20.hist', 'w:' + w.hex(), 'p,d,c:55,i:55,d,c:55,s', tag='wire-noncanon', ood=True)
         for n in (0x02000000, 0x02000001, 0xffffffff):
             if mine(1):
-                yield mk('c20.hist', 'w:' + (b'\xfe' + struct.pack('<I', n) + bytes(20)).hex(), 'p', tag='wire-oversize')
+                yield mk('c20.hist', 'w:' + (b'\xfe' + struct.pack('<I', n) + bytes(20)).hex(), 'p', tag='wire-oversize', ood=True)
         if mine(1):
-            yield mk('c20.hist', 'w:' + (b'\xff' + struct.pack('<Q', 1 << 63) + bytes(20)).hex(), 'p', tag='wire-oversize')
+            yield mk('c20.hist', 'w:' + (b'\xff' + struct.pack('<Q', 1 << 63) + bytes(20)).hex(), 'p', tag='wire-oversize', ood=True)
 
     # ------------------------------------------------------------------------------------------------
     def _elem(self, parts):
@@ -489,6 +492,14 @@ class C20(Prop):
         return c.line
 
     def agree(self, c, io, mo):
+        if c['op'] == 'c20.murmurSeq':
+            calls = c['args'][0].split(',')
+            a, b = io.split(','), mo.split(',')
+            if not (len(a) == len(b) == len(calls)):
+                return False
+            # a seed >= 2^32 is outside the quantifier (bloom_hash masks it): such a call is there to leave state
+            # behind, its own outcome is not compared
+            return all(x == y for call, x, y in zip(calls, a, b) if int(call.split(':')[0]) < (1 << 32))
         if c['op'] == 'c20.spec.hist' and mo == 'too-large':
             return True            # the set-of-bits Spec is not evaluated for k > 100000 (see Driver/C20.lean)
         if c['op'] != 'c20.ctor':
